@@ -21,6 +21,7 @@ pub fn run_go(prog: &Arc<goi::ProgData>, strategy: Strategy, seed: u64, forced: 
             sim_time_ns: 0,
             goroutines: 0,
             live_at_stop: 0,
+            max_blind_spins: 0,
         };
     }
     let co = Co::new();
